@@ -43,6 +43,9 @@ pub struct EncCfg {
     pub padding: Pad,
     pub seek: SeekPol,
     pub declare_total: bool,
+    /// extra metadata handed to `Options` (bit 0 tags, 1 picture, 2 application, 3 whole comment block,
+    /// 4 cue sheet, 5 add_block/add_blocks)
+    pub extras: u8,
 }
 
 impl EncCfg {
@@ -60,6 +63,7 @@ impl EncCfg {
             padding: Pad::Default,
             seek: SeekPol::Default,
             declare_total: false,
+            extras: 0,
         }
     }
     pub fn to_json(&self) -> J {
@@ -76,6 +80,7 @@ impl EncCfg {
             .set("padding", format!("{:?}", self.padding))
             .set("seek", format!("{:?}", self.seek))
             .set("declare_total", self.declare_total)
+            .set("extras", self.extras as u32)
     }
     pub fn random(rng: &mut Rng) -> Self {
         let bps = match rng.below(6) {
@@ -107,6 +112,7 @@ impl EncCfg {
             padding: *rng.pick(&[Pad::Default, Pad::None, Pad::Size(0), Pad::Size(1), Pad::Size(17), Pad::Size(18), Pad::Size(200), Pad::Size(65536)]),
             seek: *rng.pick(&[SeekPol::Default, SeekPol::Off, SeekPol::Frames(1), SeekPol::Frames(2), SeekPol::Frames(7), SeekPol::Seconds(1), SeekPol::Seconds(10), SeekPol::Seconds(255)]),
             declare_total: rng.chance(1, 2),
+            extras: if rng.chance(1, 3) { rng.below(64) as u8 } else { 0 },
         }
     }
 }
@@ -138,6 +144,40 @@ pub fn make_options(cfg: &EncCfg) -> Result<Options, String> {
         SeekPol::Frames(n) => o.seektable_frames(n),
         SeekPol::Seconds(s) => o.seektable_seconds(s),
     };
+    // extra metadata through every Options entry point: the audio, STREAMINFO and SEEKTABLE of the
+    // finished file must be unaffected by what else sits in the metadata section
+    use flac_codec::metadata::{Application, Cuesheet, Picture, PictureType, VorbisComment};
+    let x = cfg.extras;
+    if x & 1 != 0 {
+        o = o.tag("TITLE", "tuffy").tag("ARTIST", cfg.block_size).tag("title", "second");
+    }
+    if x & 2 != 0 {
+        let img = flacref::meta::png_header(3, 2, 8, 2, None);
+        match Picture::new(PictureType::FrontCover, "cover", img) {
+            Ok(p) => o = o.picture(p),
+            Err(e) => return Err(format!("picture: {e:?}")),
+        }
+    }
+    if x & 4 != 0 {
+        o = o.application(Application { id: Application::RIFF, data: vec![0xA5; (cfg.max_part as usize * 37) % 300] });
+    }
+    if x & 8 != 0 {
+        let mut vc = VorbisComment::default();
+        vc.vendor_string = "flacmon".into();
+        vc.insert("ALBUM", "x=y");
+        o = o.comment(vc);
+    }
+    if x & 16 != 0 {
+        let text = "FILE \"a.wav\" WAVE\n  TRACK 01 AUDIO\n    INDEX 01 00:00:00\n  TRACK 02 AUDIO\n    INDEX 00 00:01:00\n    INDEX 01 00:02:00\n";
+        match Cuesheet::parse(44100 * 600, text) {
+            Ok(c) => o = o.cuesheet(c),
+            Err(e) => return Err(format!("cuesheet: {e:?}")),
+        }
+    }
+    if x & 32 != 0 {
+        o.add_block(Application { id: Application::AIFF, data: vec![1, 2, 3] });
+        o.add_blocks([Application { id: 0x41424344, data: vec![] }, Application { id: 0x41424345, data: vec![9; 40] }]);
+    }
     Ok(o)
 }
 
@@ -151,10 +191,25 @@ pub enum Front {
 
 pub const FRONTS: [Front; 4] = [Front::Sample, Front::ByteLE, Front::ByteBE, Front::Channel];
 
+impl std::fmt::Display for EncErr {
+    fn fmt(&self, f: &mut std::fmt::Formatter) -> std::fmt::Result {
+        write!(f, "{}: {}", self.stage, self.err)
+    }
+}
+
 #[derive(Debug, Clone, PartialEq, Eq)]
 pub struct EncErr {
     pub stage: &'static str,
     pub err: String,
+}
+
+/// Debug rendering of an error (what the reports classify), after also running its Display
+/// rendering: every error value the workloads provoke has its user-facing text produced once,
+/// inside whatever monitor is active (rendering must be total too)
+pub fn show<E: std::fmt::Debug + std::fmt::Display>(e: &E) -> String {
+    let shown = e.to_string();
+    std::hint::black_box(&shown);
+    format!("{e:?}")
 }
 
 pub fn err_name(dbg: &str) -> String {
@@ -177,10 +232,18 @@ pub fn io_err_name(e: &std::io::Error) -> String {
 /// write calls in the front-end's own unit (samples for Sample, bytes for
 /// Byte*, PCM frames for Channel); empty = one call.
 pub fn encode_into<W: Write + Seek>(w: W, cfg: &EncCfg, front: Front, pcm: &[i32], splits: &[usize]) -> Result<(), EncErr> {
+    encode_into_tail(w, cfg, front, pcm, splits, 0)
+}
+
+/// Like `encode_into`, followed by `tail` stray units that do not make up a whole PCM frame
+/// (samples for the sample writer, bytes for the byte writers; ignored by the channel writer,
+/// whose interface cannot express a partial frame).  The caller keeps `tail` below one PCM frame
+/// and leaves the total undeclared; the stray data must not influence the finished file.
+pub fn encode_into_tail<W: Write + Seek>(w: W, cfg: &EncCfg, front: Front, pcm: &[i32], splits: &[usize], tail: usize) -> Result<(), EncErr> {
     let opts = make_options(cfg).map_err(|e| EncErr { stage: "options", err: e })?;
     let ch = cfg.channels as usize;
     let frames = if ch > 0 { pcm.len() / ch } else { 0 };
-    let e = |stage: &'static str| move |e: flac_codec::Error| EncErr { stage, err: format!("{e:?}") };
+    let e = |stage: &'static str| move |e: flac_codec::Error| EncErr { stage, err: crate::api::show(&e) };
     let eio = |stage: &'static str| move |e: std::io::Error| EncErr { stage, err: format!("Io({e:?})") };
     match front {
         Front::Sample => {
@@ -199,6 +262,10 @@ pub fn encode_into<W: Write + Seek>(w: W, cfg: &EncCfg, front: Front, pcm: &[i32
                     wr.write(&pcm[pos..]).map_err(e("write"))?;
                 }
             }
+            if tail > 0 {
+                let stray: Vec<i32> = (0..tail).map(|i| if i % 2 == 0 { 1 } else { -1 }).collect();
+                wr.write(&stray).map_err(e("write"))?;
+            }
             wr.finalize().map_err(e("finalize"))
         }
         Front::ByteLE | Front::ByteBE => {
@@ -209,6 +276,7 @@ pub fn encode_into<W: Write + Seek>(w: W, cfg: &EncCfg, front: Front, pcm: &[i32
                 mut wr: FlacByteWriter<W, E>,
                 bytes: &[u8],
                 splits: &[usize],
+                tail: usize,
             ) -> Result<(), EncErr> {
                 let eio = |stage: &'static str| move |e: std::io::Error| EncErr { stage, err: format!("Io({e:?})") };
                 if splits.is_empty() {
@@ -224,15 +292,19 @@ pub fn encode_into<W: Write + Seek>(w: W, cfg: &EncCfg, front: Front, pcm: &[i32
                         wr.write_all(&bytes[pos..]).map_err(eio("write"))?;
                     }
                 }
-                wr.finalize().map_err(|e| EncErr { stage: "finalize", err: format!("{e:?}") })
+                if tail > 0 {
+                    let stray: Vec<u8> = (0..tail).map(|i| 0x5A ^ i as u8).collect();
+                    wr.write_all(&stray).map_err(eio("write"))?;
+                }
+                wr.finalize().map_err(|e| EncErr { stage: "finalize", err: crate::api::show(&e) })
             }
             let _ = eio;
             if be {
                 let wr = FlacByteWriter::endian(w, BigEndian, opts, cfg.rate, cfg.bps, cfg.channels, total).map_err(e("new"))?;
-                drive(wr, &bytes, splits)
+                drive(wr, &bytes, splits, tail)
             } else {
                 let wr = FlacByteWriter::endian(w, LittleEndian, opts, cfg.rate, cfg.bps, cfg.channels, total).map_err(e("new"))?;
-                drive(wr, &bytes, splits)
+                drive(wr, &bytes, splits, tail)
             }
         }
         Front::Channel => {
@@ -352,7 +424,7 @@ pub fn decode_all_capped<R: Read>(r: R, kind: Rd, n: usize, cap: usize) -> Decod
             let mut rd = match FlacSampleReader::new(r) {
                 Ok(x) => x,
                 Err(e) => {
-                    out.error = Some(format!("{e:?}"));
+                    out.error = Some(crate::api::show(&e));
                     return out;
                 }
             };
@@ -370,7 +442,7 @@ pub fn decode_all_capped<R: Read>(r: R, kind: Rd, n: usize, cap: usize) -> Decod
                                 }
                             }
                             Err(e) => {
-                                out.error = Some(format!("{e:?}"));
+                                out.error = Some(crate::api::show(&e));
                                 return out;
                             }
                         }
@@ -396,7 +468,7 @@ pub fn decode_all_capped<R: Read>(r: R, kind: Rd, n: usize, cap: usize) -> Decod
                                 }
                             }
                             Err(e) => {
-                                out.error = Some(format!("{e:?}"));
+                                out.error = Some(crate::api::show(&e));
                                 return out;
                             }
                         }
@@ -417,7 +489,7 @@ pub fn decode_all_capped<R: Read>(r: R, kind: Rd, n: usize, cap: usize) -> Decod
                                 out.error = Some(format!("read_to_end returned {k} but appended {}", v.len()));
                             }
                         }
-                        Err(e) => out.error = Some(format!("{e:?}")),
+                        Err(e) => out.error = Some(crate::api::show(&e)),
                     }
                     out.samples = v;
                 }
@@ -433,7 +505,7 @@ pub fn decode_all_capped<R: Read>(r: R, kind: Rd, n: usize, cap: usize) -> Decod
                                 }
                             }
                             Some(Err(e)) => {
-                                out.error = Some(format!("{e:?}"));
+                                out.error = Some(crate::api::show(&e));
                                 return out;
                             }
                         }
@@ -452,7 +524,7 @@ pub fn decode_all_capped<R: Read>(r: R, kind: Rd, n: usize, cap: usize) -> Decod
                 let mut rd: FlacByteReader<R, E> = match FlacByteReader::new(r) {
                     Ok(x) => x,
                     Err(e) => {
-                        out.error = Some(format!("{e:?}"));
+                        out.error = Some(crate::api::show(&e));
                         return;
                     }
                 };
@@ -519,7 +591,7 @@ pub fn decode_all_capped<R: Read>(r: R, kind: Rd, n: usize, cap: usize) -> Decod
             let mut rd = match FlacChannelReader::new(r) {
                 Ok(x) => x,
                 Err(e) => {
-                    out.error = Some(format!("{e:?}"));
+                    out.error = Some(crate::api::show(&e));
                     return out;
                 }
             };
@@ -550,7 +622,7 @@ pub fn decode_all_capped<R: Read>(r: R, kind: Rd, n: usize, cap: usize) -> Decod
                         k
                     }
                     Err(e) => {
-                        out.error = Some(format!("{e:?}"));
+                        out.error = Some(crate::api::show(&e));
                         return out;
                     }
                 };
@@ -572,5 +644,5 @@ pub fn decode_all_capped<R: Read>(r: R, kind: Rd, n: usize, cap: usize) -> Decod
 }
 
 pub fn verify_bytes(b: &[u8]) -> Result<Verified, String> {
-    flac_codec::decode::verify_reader(std::io::Cursor::new(b)).map_err(|e| format!("{e:?}"))
+    flac_codec::decode::verify_reader(std::io::Cursor::new(b)).map_err(|e| crate::api::show(&e))
 }
